@@ -35,6 +35,10 @@ CONSTANTS
     LateStartKinds,       \* kinds whose server may still be starting: it is in the registry of servers, but has not
                           \* been handed its listener yet (the two steps of proxy.serve) -- a signal during start-up
     LateListenerLeaks,    \* deviation: a server that was shut down before it got its listener serves it all the same
+    DynamicKinds,         \* kinds whose listener can be closed at run time, before any shutdown (proto=tcp-dynamic:
+                          \* the route of the port has gone -> proxy.CloseProxy)
+    MaxSignals,           \* further termination signals (or SIGHUP) that may arrive while shutdown is under way
+    SecondSignalKills,    \* deviation: a signal that arrives during the shutdown ends the process at once
     MaxServers,           \* size of a configuration
     MaxItems,             \* work items per server
     MaxStart,             \* shutdown starts at clock 0..MaxStart
@@ -52,9 +56,11 @@ VARIABLES
     items,      \* sequence of [srv, dur, at, left, st]   st: "run" | "done" | "cut"
     srvdone,    \* kind -> BOOLEAN: this server's shutdown has returned
     serving,    \* kind -> BOOLEAN: the server has been handed its listener
-    late        \* the kinds that were handed their listener after shutdown had begun
+    late,       \* the kinds that were handed their listener after shutdown had begun
+    removed,    \* the kinds whose listener was closed at run time, before shutdown (proxy.CloseProxy)
+    signals     \* signals received after the one that started the shutdown
 
-vars == <<kinds, clock, phase, tstart, tret, listening, items, srvdone, serving, late>>
+vars == <<kinds, clock, phase, tstart, tret, listening, items, srvdone, serving, late, removed, signals>>
 
 Kinds == {KindOrder[i] : i \in DOMAIN KindOrder}
 Durs == {DurOrder[i] : i \in DOMAIN DurOrder}
@@ -73,6 +79,8 @@ Init ==
     /\ srvdone = [k \in kinds |-> FALSE]
     /\ serving \in {f \in [kinds -> BOOLEAN] : \A k \in kinds : ~f[k] => k \in LateStartKinds}
     /\ late = {}
+    /\ removed = {}
+    /\ signals = 0
 
 \* Items accepted within one tick are listed in a canonical order (they are concurrent; the
 \* order carries no information).
@@ -90,7 +98,7 @@ Accept(k, d) ==
     /\ Cardinality(ItemsOf(k)) < MaxItems
     /\ Canonical(k, d)
     /\ items' = Append(items, [srv |-> k, dur |-> d, at |-> clock, left |-> Dur[d], st |-> "run"])
-    /\ UNCHANGED <<kinds, clock, phase, tstart, tret, listening, srvdone, serving, late>>
+    /\ UNCHANGED <<kinds, clock, phase, tstart, tret, listening, srvdone, serving, late, removed, signals>>
 
 \* The server is handed its listener.  If it has been told to shut down in the meantime it closes the
 \* listener at once instead of accepting from it.
@@ -99,26 +107,26 @@ StartServe(k) ==
     /\ serving' = [serving EXCEPT ![k] = TRUE]
     /\ listening' = [listening EXCEPT ![k] = (phase = "running") \/ LateListenerLeaks]
     /\ late' = IF phase = "running" THEN late ELSE late \cup {k}
-    /\ UNCHANGED <<kinds, clock, phase, tstart, tret, items, srvdone>>
+    /\ UNCHANGED <<kinds, clock, phase, tstart, tret, items, srvdone, removed, signals>>
 
 \* the work ends by itself: it completed normally
 Finish(i) ==
     /\ items[i].st = "run" /\ items[i].left = 0
     /\ items' = [items EXCEPT ![i].st = "done"]
-    /\ UNCHANGED <<kinds, clock, phase, tstart, tret, listening, srvdone, serving, late>>
+    /\ UNCHANGED <<kinds, clock, phase, tstart, tret, listening, srvdone, serving, late, removed, signals>>
 
 \* proxy.Shutdown(W) is called: every listener is closed
 ShutdownStart ==
     /\ phase = "running"
     /\ phase' = "shutting" /\ tstart' = clock
     /\ listening' = [k \in kinds |-> FALSE]
-    /\ UNCHANGED <<kinds, clock, tret, items, srvdone, serving, late>>
+    /\ UNCHANGED <<kinds, clock, tret, items, srvdone, serving, late, removed, signals>>
 
 \* a server whose work has drained is done
 Drain(k) ==
     /\ phase = "shutting" /\ ~srvdone[k] /\ Running(k) = {}
     /\ srvdone' = [srvdone EXCEPT ![k] = TRUE]
-    /\ UNCHANGED <<kinds, clock, phase, tstart, tret, listening, items, serving, late>>
+    /\ UNCHANGED <<kinds, clock, phase, tstart, tret, listening, items, serving, late, removed, signals>>
 
 ObeysDeadline(k) == ~(k \in GrpcKinds /\ GrpcIgnoresDeadline)
 
@@ -128,12 +136,12 @@ Deadline(k) ==
     /\ ObeysDeadline(k)
     /\ items' = [i \in DOMAIN items |-> IF i \in Running(k) THEN [items[i] EXCEPT !.st = "cut"] ELSE items[i]]
     /\ srvdone' = [srvdone EXCEPT ![k] = TRUE]
-    /\ UNCHANGED <<kinds, clock, phase, tstart, tret, listening, serving, late>>
+    /\ UNCHANGED <<kinds, clock, phase, tstart, tret, listening, serving, late, removed, signals>>
 
 Return ==
     /\ phase = "shutting" /\ \A k \in kinds : srvdone[k]
     /\ phase' = "returned" /\ tret' = clock
-    /\ UNCHANGED <<kinds, clock, tstart, listening, items, srvdone, serving, late>>
+    /\ UNCHANGED <<kinds, clock, tstart, listening, items, srvdone, serving, late, removed, signals>>
 
 \* Time passes.  Work that is due ends first; at the deadline the servers act before the clock
 \* moves on (that is what "plus scheduling slack" bounds in reality).
@@ -148,13 +156,35 @@ Tick ==
     /\ clock' = clock + 1
     /\ items' = [i \in DOMAIN items |->
                    IF items[i].st = "run" /\ items[i].left > 0 THEN [items[i] EXCEPT !.left = @ - 1] ELSE items[i]]
-    /\ UNCHANGED <<kinds, phase, tstart, tret, listening, srvdone, serving, late>>
+    /\ UNCHANGED <<kinds, phase, tstart, tret, listening, srvdone, serving, late, removed, signals>>
 
 AcceptAny == \E k \in kinds, d \in Durs : Accept(k, d)
 FinishAny == \E i \in DOMAIN items : Finish(i)
 DrainAny == \E k \in kinds : Drain(k)
 DeadlineAny == \E k \in kinds : Deadline(k)
 StartServeAny == \E k \in kinds : StartServe(k)
+
+\* A listener is closed at run time (its route has gone): it stops listening, its connections are closed,
+\* and the later shutdown has nothing to do for it.
+Remove(k) ==
+    /\ phase = "running" /\ k \in DynamicKinds /\ k \notin removed /\ serving[k]
+    /\ removed' = removed \cup {k}
+    /\ listening' = [listening EXCEPT ![k] = FALSE]
+    /\ items' = [i \in DOMAIN items |-> IF i \in Running(k) THEN [items[i] EXCEPT !.st = "cut"] ELSE items[i]]
+    /\ srvdone' = [srvdone EXCEPT ![k] = TRUE]
+    /\ UNCHANGED <<kinds, clock, phase, tstart, tret, serving, late, signals>>
+RemoveAny == \E k \in kinds : Remove(k)
+
+\* Another signal while the shutdown is under way (a second SIGTERM / SIGINT, or the SIGHUP that fabio
+\* ignores): shutting down is idempotent, the signal changes nothing.
+Signal ==
+    /\ phase = "shutting" /\ signals < MaxSignals
+    /\ signals' = signals + 1
+    /\ IF SecondSignalKills
+       THEN /\ phase' = "returned" /\ tret' = clock
+            /\ items' = [i \in DOMAIN items |-> IF items[i].st = "run" THEN [items[i] EXCEPT !.st = "cut"] ELSE items[i]]
+       ELSE UNCHANGED <<phase, tret, items>>
+    /\ UNCHANGED <<kinds, clock, tstart, listening, srvdone, serving, late, removed>>
 
 Next ==
     \/ AcceptAny
@@ -163,6 +193,8 @@ Next ==
     \/ DrainAny
     \/ DeadlineAny
     \/ StartServeAny
+    \/ RemoveAny
+    \/ Signal
     \/ Return
     \/ Tick
 
@@ -183,7 +215,7 @@ NoNewWorkAfterStart == [][phase # "running" => Len(items') = Len(items)]_vars
 \* work in flight that ends within the wait is never cut, and has completed when shutdown returns
 ShortCompletes ==
     \A i \in DOMAIN items :
-        (~Never(items[i].dur) /\ phase # "running" /\ Due(items[i]) < tstart + W) =>
+        (~Never(items[i].dur) /\ phase # "running" /\ Due(items[i]) < tstart + W /\ items[i].srv \notin removed) =>
             /\ items[i].st # "cut"
             /\ phase = "returned" => items[i].st = "done"
 
